@@ -62,3 +62,18 @@ func contract_JSONSnakeCase(s string) (r string) {
 	ensures(forallStr(r, 0, len(r), func(k int, e byte) bool { return !('A' <= e && e <= 'Z') }))
 	return
 }
+
+// GoSanitized keeps a rune only if it may appear in a Go identifier: the Go specification's
+// identifier = letter { letter | unicode_digit } with letter = unicode_letter | "_", where
+// unicode_letter is category L and unicode_digit is category Nd (unicode.IsLetter / unicode.IsDigit,
+// uninterpreted here). Every other rune is replaced. (The keyword and first-character handling
+// after the mapping is not under contract.)
+//
+// @ props C42
+// @ mode int
+// @ nopanic
+// @ site return r: unicode.IsLetter(r) || unicode.IsDigit(r)
+func contract_GoSanitized(s string) (r string) {
+	modifiesAll()
+	return
+}
